@@ -74,8 +74,32 @@ pub fn check_reproducible(b: &Built, rec: &Recorder, c: &mut Counters, p: &Param
             c.addn("executions", st.executions);
             c.addn("choice_points", st.choice_points);
             if st.divergences > 0 {
-                eprintln!("MACHINERY-ERROR: choice replay diverged on {sub}");
-                std::process::exit(2);
+                // The same (input, seed, choice prefix) produced a different sequence of choice points:
+                // the code depends on nondeterminism the seams do not own. Confirm on the real code:
+                // free-running calls under different hash-key environments must then disagree.
+                c.inc("choice_replay_divergences");
+                let mut free: BTreeMap<Outcome, u64> = BTreeMap::new();
+                for hs in 0..16u64 {
+                    if let Ok(o) = on_fresh_thread_scoped(500 + hs, || exec_louvain(b, weighted, None, None, Some(seed), None, &[]).outcome) {
+                        free.entry(o).or_insert(hs);
+                    }
+                    calls += 1;
+                }
+                if free.len() > 1 {
+                    let mut it = free.iter();
+                    let (o1, h1) = it.next().unwrap();
+                    let (o2, h2) = it.next().unwrap();
+                    let mut t = b.tags();
+                    t.push("hash_order_dependence_outside_seams".into());
+                    rec.record(
+                        Violation::new("seeded_louvain_reproducible", "louvain_partitions", format!("{sub}|free"), format!("{}\nlouvain_partitions(weighted={weighted}, None, None, Some({seed})) on real hash orders gives {} different results over 16 hash-key environments (and its sequence of hash-order choice points is not a function of the explorer's answers), e.g.\n  environment {h1} -> {o1:?}\n  environment {h2} -> {o2:?}", b.describe(), free.len()))
+                            .with_tags(t)
+                            .with_snippet(b.snippet(&format!("    // call louvain_partitions(&g, {weighted}, None, None, Some({seed})) repeatedly: the result differs between calls\n"))),
+                    );
+                } else {
+                    c.inc("unexplained_choice_replay_divergences");
+                }
+                continue;
             }
             if st.max_points > 0 {
                 c.inc("inputs_with_choice_points");
@@ -383,6 +407,9 @@ pub fn run(tier: &str, rec: &Recorder) -> RunOutput {
     out.set("rule", "deciding part: louvain_partitions with a seed on tie-rich graphs (paths P2..P8, cycles C3..C8, K4, K3,3, cube, two joined triangles, directed variants; all undirected graphs n<=4/5 and digraphs n<=3/4; weights {1,2}; thorough: inexact weights {0.1,0.2,0.3} with the weight-sum order as an additional choice point) x seeds x weighted flag; E3 explores the iteration order of the candidate-community map at every visit (all permutations per point, deviation bound as reported) and the set of distinct results over all explored orders must be a singleton. states = executions, transitions = choice points answered. Supplementary, sampled and labelled as such: the same calls on real hash orders under several hash-key environments and rayon pool sizes; fast_gnp with a seed likewise; every non-randomised algorithm on small graphs under several hash environments");
     for k in ["executions", "inputs_with_choice_points", "named_graphs"] {
         out.require_nonzero(k);
+    }
+    if out.get("unexplained_choice_replay_divergences") > 0 {
+        out.machinery_errors.push("choice replay diverged (uncontrolled nondeterminism) but free-running results agree: cannot decide".into());
     }
     out.assumptions = vec![
         "hash-map sites without a seam (edge order during graph aggregation, degree and modularity sums) affect only float addition order; with integer weights those sums are exact, with inexact weights they are covered by the sampled hash environments only".into(),
